@@ -28,7 +28,7 @@ type op struct {
 // glob is a declared global variable.
 type glob struct {
 	Name string `json:"name"`
-	Type string `json:"type"` // string | int | T (struct{A, B int}) | A3 ([3]int)
+	Type string `json:"type"` // string | int | T (struct{A, B int}) | A3 ([3]int) | any (interface-typed, holds ints)
 }
 
 // macro is a macro declaration.
@@ -293,7 +293,7 @@ func (g *pgen) simple() op {
 		return op{K: "ptrw", V: v, F: f, ID: g.next()}
 	case w < 92:
 		v, f := g.pickVar(false)
-		if t := g.p.typeOf(v); t == "string" {
+		if t := g.p.typeOf(v); t == "string" || t == "any" {
 			return op{K: "write", V: v, F: f, ID: g.next()}
 		}
 		return op{K: "inc", V: v, F: f, ID: g.next()}
@@ -370,7 +370,7 @@ func (g *pgen) body(n, depth int, callable []string, partials []string, closures
 func generate(r *rand.Rand, firstRefTopLevel, noQualifiedInClosure bool) *prog {
 	p := &prog{Partials: map[string][]op{}}
 	g := &pgen{r: r, p: p, noQualifiedInClosure: noQualifiedInClosure}
-	types := []string{"string", "int", "T", "A3", "T", "A3"}
+	types := []string{"string", "int", "T", "A3", "T", "A3", "any"}
 	ng := 1 + r.Intn(4)
 	for i := 0; i < ng; i++ {
 		gl := glob{Name: fmt.Sprintf("G%d", i), Type: types[r.Intn(len(types))]}
